@@ -266,7 +266,10 @@ class Env:
                               f'was handed over after the lower block report; its set and every '
                               f'refresh behind it wait for the next block report',
                               'stale_refresh_above_lower_report')
-            elif set(self.owed) <= self.pending_bp_tokens() and self.last_call == 'on_block':
+            elif set(self.owed) <= self.pending_bp_tokens() and self.last_call == 'on_block' \
+                    and self.D not in self.n._touched_mp:
+                # (the finding's history: no refresh at D is waiting - it was consumed before the
+                # block report came; with one waiting, on_block had to notify)
                 self.error = (f'both sources have reported at the current height {self.D} but '
                               f'token(s) {sorted(self.owed)} are still pending (not dropped): '
                               f'they wait for the next mempool refresh because a fresh refresh '
